@@ -184,9 +184,9 @@ impl AvcCBox {
     pub fn new(sps: &[u8], pps: &[u8]) -> Self {
         Self {
             configuration_version: 1,
-            avc_profile_indication: sps[1],
-            profile_compatibility: sps[2],
-            avc_level_indication: sps[3],
+            avc_profile_indication: sps.get(1).copied().unwrap_or(0),
+            profile_compatibility: sps.get(2).copied().unwrap_or(0),
+            avc_level_indication: sps.get(3).copied().unwrap_or(0),
             length_size_minus_one: 0xff, // length_size = 4
             sequence_parameter_sets: vec![NalUnit::from(sps)],
             picture_parameter_sets: vec![NalUnit::from(pps)],
